@@ -43,9 +43,7 @@ pub enum Ev {
     RedZone { addr: usize, gc: Option<u32>, ctx: u32 },
 }
 
-struct State {
-    enabled: bool,
-    busy: bool,
+struct Inner {
     blocks: Option<BTreeMap<usize, Blk>>,
     /// tombstones of freed Gc blocks: base -> id (to classify a second free)
     freed_gc: Option<BTreeMap<usize, u32>>,
@@ -53,23 +51,44 @@ struct State {
     seq: u64,
     live_bytes: usize,
     total_allocs: u64,
-    redzone: usize,
 }
 
-struct Global(UnsafeCell<State>);
+/// Flags live in `Cell`s so that a nested allocator call (made while the tables are being
+/// updated) can read them through a shared reference; only the outermost call, which has set
+/// `busy`, ever creates a `&mut Inner`.
+struct Global {
+    enabled: Cell<bool>,
+    busy: Cell<bool>,
+    redzone: Cell<usize>,
+    inner: UnsafeCell<Inner>,
+}
 unsafe impl Sync for Global {}
 
-static G: Global = Global(UnsafeCell::new(State {
-    enabled: true,
-    busy: false,
-    blocks: None,
-    freed_gc: None,
-    events: None,
-    seq: 0,
-    live_bytes: 0,
-    total_allocs: 0,
-    redzone: 0,
-}));
+static G: Global = Global {
+    enabled: Cell::new(true),
+    busy: Cell::new(false),
+    redzone: Cell::new(0),
+    inner: UnsafeCell::new(Inner { blocks: None, freed_gc: None, events: None, seq: 0, live_bytes: 0, total_allocs: 0 }),
+};
+
+/// RAII: marks the tracker busy and hands out the tables
+struct Busy;
+impl Busy {
+    #[inline]
+    fn enter() -> Option<(Busy, &'static mut Inner)> {
+        if !G.enabled.get() || G.busy.get() {
+            return None;
+        }
+        G.busy.set(true);
+        // SAFETY: single threaded, and `busy` guarantees that no other `&mut Inner` exists
+        Some((Busy, unsafe { &mut *G.inner.get() }))
+    }
+}
+impl Drop for Busy {
+    fn drop(&mut self) {
+        G.busy.set(false);
+    }
+}
 
 struct Ctx(Cell<u32>);
 unsafe impl Sync for Ctx {}
@@ -108,23 +127,16 @@ pub fn ctx_name(c: u32) -> String {
     format!("{}@{}", k, ctx_arena(c))
 }
 
-#[inline]
-fn st() -> &'static mut State {
-    unsafe { &mut *G.0.get() }
-}
-
 pub struct Tracking;
 
 const RZ_BYTE: u8 = 0xA7;
 
 unsafe impl GlobalAlloc for Tracking {
     unsafe fn alloc(&self, layout: Layout) -> *mut u8 {
-        let s = st();
-        if !s.enabled || s.busy {
+        let Some((_b, s)) = Busy::enter() else {
             return unsafe { System.alloc(layout) };
-        }
-        s.busy = true;
-        let rz = s.redzone;
+        };
+        let rz = G.redzone.get();
         let p = if rz == 0 {
             unsafe { System.alloc(layout) }
         } else {
@@ -149,25 +161,22 @@ unsafe impl GlobalAlloc for Tracking {
             s.live_bytes += layout.size();
             let seq = s.seq;
             s.blocks.get_or_insert_with(BTreeMap::new).insert(
-                p as usize,
+                p.addr(),
                 Blk { size: layout.size(), align: layout.align(), gc: None, seq, rz },
             );
             if let Some(f) = s.freed_gc.as_mut() {
-                f.remove(&(p as usize));
+                f.remove(&p.addr());
             }
         }
-        s.busy = false;
         p
     }
 
     unsafe fn dealloc(&self, ptr: *mut u8, layout: Layout) {
-        let s = st();
-        if !s.enabled || s.busy {
+        let Some((_b, s)) = Busy::enter() else {
             return unsafe { System.dealloc(ptr, layout) };
-        }
-        s.busy = true;
+        };
         let c = ctx();
-        let addr = ptr as usize;
+        let addr = ptr.addr();
         let blk = s.blocks.get_or_insert_with(BTreeMap::new).remove(&addr);
         match blk {
             None => {
@@ -231,7 +240,6 @@ unsafe impl GlobalAlloc for Tracking {
                 }
             }
         }
-        s.busy = false;
     }
 
     unsafe fn realloc(&self, ptr: *mut u8, layout: Layout, new_size: usize) -> *mut u8 {
@@ -251,55 +259,45 @@ unsafe impl GlobalAlloc for Tracking {
 /// Turn all bookkeeping off (for valgrind / LeakSanitizer runs, where an address-remembering table
 /// would hide leaks). Must be called before any state the harness cares about exists.
 pub fn disable() {
-    st().enabled = false;
+    G.enabled.set(false);
 }
 pub fn enabled() -> bool {
-    st().enabled
+    G.enabled.get()
 }
 
 /// Enable red zones of `n` bytes around every later allocation (each block remembers the red-zone
 /// size it was allocated with, so earlier blocks are released normally).
 pub fn enable_redzones(n: usize) {
-    st().redzone = n;
+    G.redzone.set(n);
 }
 
 pub fn seq() -> u64 {
-    st().seq
+    Busy::enter().map(|(_b, s)| s.seq).unwrap_or(0)
 }
 pub fn live_blocks() -> usize {
-    st().blocks.as_ref().map(|b| b.len()).unwrap_or(0)
+    Busy::enter().map(|(_b, s)| s.blocks.as_ref().map(|b| b.len()).unwrap_or(0)).unwrap_or(0)
 }
 pub fn live_bytes() -> usize {
-    st().live_bytes
+    Busy::enter().map(|(_b, s)| s.live_bytes).unwrap_or(0)
 }
 
 /// Register the block containing `addr` as the Gc allocation of harness object `id`. Returns the
 /// block's base address and layout.
 pub fn register_gc(addr: usize, id: u32) -> Option<(usize, usize, usize)> {
-    let s = st();
-    if !s.enabled {
-        return None;
+    let (_b, s) = Busy::enter()?;
+    let blocks = s.blocks.as_mut()?;
+    let (base, b) = blocks.range_mut(..=addr).next_back()?;
+    if addr < base + b.size.max(1) {
+        b.gc = Some(id);
+        Some((*base, b.size, b.align))
+    } else {
+        None
     }
-    s.busy = true;
-    let mut out = None;
-    if let Some(blocks) = s.blocks.as_mut() {
-        if let Some((base, b)) = blocks.range_mut(..=addr).next_back() {
-            if addr < base + b.size.max(1) {
-                b.gc = Some(id);
-                out = Some((*base, b.size, b.align));
-            }
-        }
-    }
-    s.busy = false;
-    out
 }
 
 /// Is `base` currently a live block registered for object `id`?
 pub fn gc_block_live(base: usize, id: u32) -> bool {
-    let s = st();
-    if !s.enabled {
-        return true;
-    }
+    let Some((_b, s)) = Busy::enter() else { return true };
     match s.blocks.as_ref().and_then(|b| b.get(&base)) {
         Some(b) => b.gc == Some(id),
         None => false,
@@ -308,7 +306,7 @@ pub fn gc_block_live(base: usize, id: u32) -> bool {
 
 /// Which block (base, size, align, gc id) contains this address, if any?
 pub fn block_containing(addr: usize) -> Option<(usize, Blk)> {
-    let s = st();
+    let (_b, s) = Busy::enter()?;
     let blocks = s.blocks.as_ref()?;
     let (base, b) = blocks.range(..=addr).next_back()?;
     if addr < base + b.size.max(1) { Some((*base, *b)) } else { None }
@@ -316,11 +314,14 @@ pub fn block_containing(addr: usize) -> Option<(usize, Blk)> {
 
 /// Number of live blocks registered as Gc blocks whose id satisfies `f`.
 pub fn count_gc_blocks(mut f: impl FnMut(u32) -> bool) -> usize {
-    let s = st();
+    let mut ids: [u32; 0] = [];
+    let _ = &mut ids;
+    let Some((_b, s)) = Busy::enter() else { return 0 };
     let mut n = 0;
     if let Some(b) = s.blocks.as_ref() {
         for blk in b.values() {
             if let Some(id) = blk.gc {
+                // `f` runs while the tracker is busy: its allocations (if any) bypass the tables
                 if f(id) {
                     n += 1;
                 }
@@ -330,57 +331,55 @@ pub fn count_gc_blocks(mut f: impl FnMut(u32) -> bool) -> usize {
     n
 }
 
-/// Blocks allocated at or after sequence number `since` that are still live.
+/// Blocks allocated after sequence number `since` that are still live.
 pub fn blocks_since(since: u64) -> Vec<(usize, Blk)> {
-    let s = st();
-    let mut v: Vec<(usize, Blk)> = Vec::new();
-    let mut tmp: Vec<(usize, Blk)> = Vec::new();
-    s.busy = true;
-    if let Some(b) = s.blocks.as_ref() {
-        for (a, blk) in b.iter() {
-            if blk.seq > since {
-                tmp.push((*a, *blk));
+    // count first, reserve outside the busy section (a tracked allocation), then fill
+    let n = match Busy::enter() {
+        Some((_b, s)) => s.blocks.as_ref().map(|b| b.values().filter(|x| x.seq > since).count()).unwrap_or(0),
+        None => return Vec::new(),
+    };
+    let mut v: Vec<(usize, Blk)> = Vec::with_capacity(n + 4);
+    let vseq = match Busy::enter() {
+        Some((_b, s)) => s.seq,
+        None => 0,
+    };
+    if let Some((_b, s)) = Busy::enter() {
+        if let Some(b) = s.blocks.as_ref() {
+            for (a, blk) in b.iter() {
+                // skip the buffer of `v` itself (allocated just now)
+                if blk.seq > since && blk.seq != vseq && v.len() < v.capacity() {
+                    v.push((*a, *blk));
+                }
             }
         }
     }
-    // tmp was allocated while busy (untracked); copy into a tracked vec and free tmp while busy
-    s.busy = false;
-    v.reserve(tmp.len());
-    for x in tmp.iter() {
-        v.push(*x);
-    }
-    s.busy = true;
-    drop(tmp);
-    s.busy = false;
     v
 }
 
 /// Drain the event log. The callback runs with tracking active (it may allocate freely).
 pub fn drain_events(mut f: impl FnMut(Ev)) {
-    let s = st();
-    if !s.enabled {
-        return;
-    }
     loop {
-        s.busy = true;
-        let evs = s.events.take();
-        s.busy = false;
+        let evs = match Busy::enter() {
+            Some((_b, s)) => s.events.take(),
+            None => return,
+        };
         let Some(evs) = evs else { return };
-        if evs.is_empty() {
-            s.busy = true;
-            drop(evs);
-            s.busy = false;
-            return;
-        }
+        let empty = evs.is_empty();
         for e in evs.iter() {
             f(*e);
         }
-        s.busy = true;
-        drop(evs);
-        s.busy = false;
+        // the buffer was allocated while busy (untracked): release it the same way
+        if let Some((_b, _s)) = Busy::enter() {
+            drop(evs);
+        } else {
+            std::mem::forget(evs);
+        }
+        if empty {
+            return;
+        }
     }
 }
 
 pub fn events_pending() -> usize {
-    st().events.as_ref().map(|e| e.len()).unwrap_or(0)
+    Busy::enter().map(|(_b, s)| s.events.as_ref().map(|e| e.len()).unwrap_or(0)).unwrap_or(0)
 }
